@@ -20,6 +20,24 @@ def trimPrefix (s p : String) : String :=
 def trimSuffix (s p : String) : String :=
   if p.toList.isSuffixOf s.toList then String.ofList (s.toList.take (s.toList.length - p.toList.length)) else s
 
+/-- `unicode.IsSpace` -/
+def isGoSpace (c : Char) : Bool :=
+  let n := c.toNat
+  (9 ≤ n && n ≤ 13) || n == 0x20 || n == 0x85 || n == 0xA0 || n == 0x1680 || (0x2000 ≤ n && n ≤ 0x200A) ||
+  n == 0x2028 || n == 0x2029 || n == 0x202F || n == 0x205F || n == 0x3000
+
+/-- `strings.Fields`: maximal runs of non-space characters -/
+def fieldsAux : List Char → List Char → List (List Char)
+  | [], cur => if cur.isEmpty then [] else [cur.reverse]
+  | c :: cs, cur =>
+    if isGoSpace c then (if cur.isEmpty then fieldsAux cs [] else cur.reverse :: fieldsAux cs [])
+    else fieldsAux cs (c :: cur)
+
+def fields (s : String) : List String := (fieldsAux s.toList []).map String.ofList
+
+/-- `strings.Join` -/
+def join (xs : List String) (sep : String) : String := sep.intercalate xs
+
 /-- Go `len(s)` for a string: number of bytes. -/
 def goLen (s : String) : Int := s.utf8ByteSize
 
